@@ -130,7 +130,7 @@ def install(reg, src):
 
     deg_contract(f"{M}:_compute_degree_impl", 1)
 
-    reg.mark_inline(f"{M}:_product_degree", f"{M}:_power_degree")      # comparisons and a max: executed as written
+    reg.mark_inline(f"{M}:_product_degree", f"{M}:_power_degree", f"{M}:_in_column_order")      # comparisons and a max: executed as written
     # ---- helper shared by the twins (present after the D8 repair): degree of the elements of a vector operand
     if f"{M}:_vector_elements_degree" in src.funcs:
         @reg.contract(f"{M}:_vector_elements_degree", props=["C04", "C15"], cases={"vector": ["VectorVariable", "VectorExpression"]},
@@ -454,7 +454,7 @@ def install_lp2(reg, src):
                                                               L["dot_update_lemmas"], L["lin_cases"])
     INJ = sym.fn("IDXINJ", reg.IDXS, sym.B)      # index map is injective on its key set
 
-    def idx_facts_for_vector(sp, v, IDX):
+    def idx_facts_for_vector(sp, v, IDX, X=None):
         """range and injectivity instances of the index map at the names of the vector's variables."""
         ip = sp.ip
         p = ip.path
@@ -465,6 +465,8 @@ def install_lp2(reg, src):
                 nm = FNAME(ELEMV(v, k))
                 t = z3.Select(IDX, nm)
                 p.assume(z3.Implies(INDOM(IDX, nm), z3.And(t >= 0, t < NV(IDX))))
+                if X is not None:
+                    ip.models.env_fact(X, t)        # x[IDX[name]] = E[name] at the name of the k-th vector variable
                 for k2 in list(seqs(ip).idx):
                     if not k2.eq(k) and _once(ip, f"idxinj:{v}:{IDX}:{min(str(k), str(k2))}:{max(str(k), str(k2))}"):
                         nm2 = FNAME(ELEMV(v, k2))
@@ -547,7 +549,7 @@ def install_lp2(reg, src):
                 else:
                     vs.append((r, FV(sp, r)))
                 for node, v in vs:
-                    idx_facts_for_vector(sp, v, IDX)
+                    idx_facts_for_vector(sp, v, IDX, X)
                     nk = ip.path.kinds.get(str(node))
                     sp.S.DEN(node, sp.E, sp.PV)
                     from .specfns import unfold
